@@ -27,3 +27,119 @@ Theorem parents_roundtrip : forall f c ps before after p1 p2 ex,
   (ex <> [] -> extra_edges_data f = Ok (Some (concat_map be32 (before ++ ex ++ after)))) ->
   parents f c = Ok (ps, None).
 Proof. exact L_parents_decode. Qed.
+
+From Coq Require Import Sorted.
+From GixV.C14 Require Import ProofsOrder ProofsFile ProofsGraph ProofsChain.
+
+(* ---- one file ---------------------------------------------------------------------------------------
+   [file_holds f rs]: the File's fan-out is the writer's fan-out of the ids and its OIDL / CDAT / EDGE regions
+   hold the tables the writer builds from the records [rs].  For such a file, with git's side conditions
+   (20-byte ids sorted, positions below 0x70000000, 30-bit generation, 34-bit time, < 2^31 entries): *)
+Theorem file_reads_written_records : forall f rs,
+  file_holds f rs -> Forall rec_ok rs ->
+  N.of_nat (length rs) <= HIGH_BIT -> N.of_nat (length (snd (cdat_edges rs []))) < HIGH_BIT ->
+  num_commits f = N.of_nat (length rs) /\
+  forall i, (i < length rs)%nat ->
+    let r := nth i rs dummy_rec in
+    id_at f (N.of_nat i) = Ok (r_id r) /\
+    exists c, commit_new f (N.of_nat i) = Ok c /\
+      c_tree c = r_tree r /\ c_generation c = r_gen r /\ c_time c = r_time r /\
+      parents f c = Ok (r_parents r, None).
+Proof.
+  intros f rs Hh Hok Hn He. split; [exact (L_num_commits f rs Hh Hok Hn He)|].
+  intros i Hi. split; [exact (L_id_at f rs Hh Hok Hn He i Hi)|exact (L_commit_at f rs Hh Hok Hn He i Hi)].
+Qed.
+
+(* File::lookup never panics, needs at most 34 bisection steps, and finds an id exactly when it was written *)
+Theorem file_lookup_iff_written : forall f rs,
+  file_holds f rs -> Forall rec_ok rs -> sorted_ids (map r_id rs) ->
+  N.of_nat (length rs) <= HIGH_BIT -> N.of_nat (length (snd (cdat_edges rs []))) < HIGH_BIT ->
+  forall id, exists res, file_lookup f id = Ok res /\
+    match res with
+    | Some m => (N.to_nat m < length rs)%nat /\ r_id (nth (N.to_nat m) rs dummy_rec) = id
+    | None => ~ In id (map r_id rs)
+    end.
+Proof. exact L_file_lookup. Qed.
+
+(* ---- graph positions across the files of a chain ------------------------------------------------------ *)
+Theorem graph_position_translation : forall pre f post i, i < num_commits f ->
+  lookup_by_pos (pre ++ f :: post) (total_commits pre + i) = Ok (f, i).
+Proof. exact L_lookup_by_pos. Qed.
+
+Theorem graph_position_beyond_panics : forall g p, total_commits g <= p -> lookup_by_pos g p = Panic.
+Proof. exact L_lookup_by_pos_beyond. Qed.
+
+Theorem graph_lookup_first_file_wins : forall pre f post start id lex,
+  (forall f', In f' pre -> file_lookup f' id = Ok None) ->
+  file_lookup f id = Ok (Some lex) ->
+  start + total_commits pre + lex < U32 ->
+  lookup_by_id (pre ++ f :: post) start id = Ok (Some (f, lex, start + total_commits pre + lex)).
+Proof. exact L_lookup_by_id_found. Qed.
+
+(* ---- a chain of files: graph_RT ------------------------------------------------------------------------
+   layers [lpre ++ rs :: …] held by files [pre ++ f :: post]: record i of layer [rs] is read at graph position
+   (#commits of the lower layers + i) with its id, tree, generation, time and parent positions … *)
+Theorem graph_reads_written_commit : forall pre post f lpre rs,
+  Forall2 file_holds pre lpre -> file_holds f rs -> Forall layer_ok lpre -> layer_ok rs ->
+  forall i, (i < length rs)%nat ->
+    let r := nth i rs dummy_rec in
+    let g := pre ++ f :: post in
+    graph_id_at g (gpos lpre i) = Ok (r_id r) /\
+    exists c, graph_commit_at g (gpos lpre i) = Ok (f, c) /\
+      c_tree c = r_tree r /\ c_generation c = r_gen r /\ c_time c = r_time r /\
+      parents f c = Ok (r_parents r, None).
+Proof. exact L_chain_commit. Qed.
+
+(* … and every commit is found by its id (lookup and commit_by_id), at that position, when ids are unique *)
+Theorem every_commit_found : forall pre post f lpre rs,
+  Forall2 file_holds pre lpre -> file_holds f rs -> Forall layer_ok lpre -> layer_ok rs ->
+  forall i, (i < length rs)%nat ->
+    let r := nth i rs dummy_rec in
+    let g := pre ++ f :: post in
+    ~ In (r_id r) (map r_id (concat lpre)) -> NoDup (map r_id rs) ->
+    commits_in lpre + N.of_nat (length rs) < U32 ->
+    graph_lookup g (r_id r) = Ok (Some (gpos lpre i)) /\
+    exists c, graph_commit_by_id g (r_id r) = Ok (Some (f, N.of_nat i, c)) /\
+      c_tree c = r_tree r /\ c_generation c = r_gen r /\ c_time c = r_time r /\
+      parents f c = Ok (r_parents r, None).
+Proof. exact L_chain_lookup. Qed.
+
+Theorem absent_id_not_found : forall g layers id, Forall2 file_holds g layers -> Forall layer_ok layers ->
+  ~ In id (map r_id (concat layers)) -> commits_in layers < U32 ->
+  graph_lookup g id = Ok None.
+Proof. exact L_chain_absent. Qed.
+
+Theorem graph_new_accepts_chain : forall g layers, Forall2 file_holds g layers -> Forall layer_ok layers ->
+  commits_in layers <= MAX_COMMITS ->
+  graph_new g = Ok g /\ graph_num_commits g = Ok (commits_in layers).
+Proof. exact L_graph_new. Qed.
+
+(* ---- non-vacuity: a file written by the Spec writer (two roots, a merge, an octopus over the extra edge
+   list) opens, holds its records, and satisfies every side condition above ---------------------------- *)
+Definition ex_rs : list rec :=
+  [ {| r_id := repeat x01 20; r_tree := repeat xa1 20; r_parents := []; r_gen := 1; r_time := 5 |};
+    {| r_id := repeat x02 20; r_tree := repeat xa2 20; r_parents := []; r_gen := 1; r_time := 17179869183 |};
+    {| r_id := repeat x7f 20; r_tree := repeat xa3 20; r_parents := [0; 1]; r_gen := 2; r_time := 4294967296 |};
+    {| r_id := repeat xff 20; r_tree := repeat xa4 20; r_parents := [2; 0; 1]; r_gen := 3; r_time := 7 |} ].
+Definition ex_file : file :=
+  match file_new (write_file ex_rs [] (repeat x00 20)) with
+  | Ok f => f
+  | _ => {| fdata := []; base_graph_count := 0; base_graphs_list_offset := None; commit_data_offset := 0;
+            extra_edges_list_range := None; ffan := []; oid_lookup_offset := 0 |}
+  end.
+Example written_file_holds : file_new (write_file ex_rs [] (repeat x00 20)) = Ok ex_file /\
+  file_holds ex_file ex_rs /\ layer_ok ex_rs /\ NoDup (map r_id ex_rs).
+Proof.
+  split; [vm_compute; reflexivity|]. split.
+  - unfold file_holds. split; [vm_compute; reflexivity|].
+    split; [|split].
+    + intros i Hi. do 4 (destruct i as [|i]; [vm_compute; reflexivity|]). cbn in Hi. lia.
+    + intros i Hi. do 4 (destruct i as [|i]; [vm_compute; reflexivity|]). cbn in Hi. lia.
+    + intros _. vm_compute. reflexivity.
+  - split.
+    + split.
+      * repeat (apply Forall_cons; [constructor; [reflexivity|reflexivity|repeat (apply Forall_cons; [reflexivity|]); apply Forall_nil|reflexivity|reflexivity]|]). apply Forall_nil.
+      * split; [|split; vm_compute; (reflexivity || (intros; discriminate))].
+        unfold sorted_ids. repeat constructor; vm_compute; discriminate.
+    + repeat constructor; cbn; intros H; repeat (destruct H as [H|H]; [discriminate H|]); exact H.
+Qed.
